@@ -64,6 +64,71 @@ pub struct World {
     pub bars: BTreeMap<i64, Vec<ProgressBar>>,
     pub pipe_r: Option<std::fs::File>,
     pub weak: BTreeMap<i64, indicatif::WeakProgressBar>,
+    pub pty_master: Option<std::fs::File>,
+}
+
+/// A console::Term over the slave side of a pty (so `is_term()` is true and the size comes from the window size we set); the
+/// master side is read back after every operation and decoded into the same call alphabet the spy terminal records.
+fn pty_term(w: u16, h: u16) -> (console::Term, std::fs::File) {
+    use std::os::fd::FromRawFd;
+    let (mut m, mut sl) = (0i32, 0i32);
+    let ws = libc::winsize { ws_row: h, ws_col: w, ws_xpixel: 0, ws_ypixel: 0 };
+    unsafe {
+        libc::openpty(&mut m, &mut sl, std::ptr::null_mut(), std::ptr::null(), &ws);
+        let mut t: libc::termios = std::mem::zeroed();
+        libc::tcgetattr(sl, &mut t);
+        libc::cfmakeraw(&mut t);                        // no ONLCR: a newline stays a newline
+        libc::tcsetattr(sl, libc::TCSANOW, &t);
+        let fl = libc::fcntl(m, libc::F_GETFL);
+        libc::fcntl(m, libc::F_SETFL, fl | libc::O_NONBLOCK);
+    }
+    let master = unsafe { std::fs::File::from_raw_fd(m) };
+    let slave = unsafe { std::fs::File::from_raw_fd(sl) };
+    let slave2 = slave.try_clone().unwrap();
+    (console::Term::read_write_pair(slave2, slave), master)
+}
+
+/// bytes written by console::Term -> TermLike calls (as JSON, like spy::call_json)
+pub fn decode_term_bytes(bytes: &[u8]) -> Vec<Value> {
+    let s = String::from_utf8_lossy(bytes).to_string();
+    let cs: Vec<char> = s.chars().collect();
+    let mut out: Vec<Value> = vec![];
+    let mut text = String::new();
+    let flush_text = |text: &mut String, out: &mut Vec<Value>, line: bool| {
+        if line { out.push(json!({"k": "line", "n": 0, "c": tok::string_to_cells(text), "u": 0})); }
+        else if !text.is_empty() { out.push(json!({"k": "str", "n": 0, "c": tok::string_to_cells(text), "u": 0})); }
+        text.clear();
+    };
+    let mut i = 0;
+    while i < cs.len() {
+        let c = cs[i];
+        if c == '\x1b' && i + 1 < cs.len() && cs[i + 1] == '[' {
+            let mut j = i + 2;
+            let mut num = String::new();
+            while j < cs.len() && (cs[j].is_ascii_digit() || cs[j] == ';') { num.push(cs[j]); j += 1; }
+            if j < cs.len() && (cs[j] == 'A' || cs[j] == 'B' || cs[j] == 'C' || cs[j] == 'D' || cs[j] == 'K') {
+                let n: u64 = num.parse().unwrap_or(1);
+                // "\r" + CSI 2K is clear_line: the carriage return was put into the text just before
+                if cs[j] == 'K' {
+                    if text.ends_with('\r') { text.pop(); }
+                    flush_text(&mut text, &mut out, false);
+                    out.push(json!({"k": "clear", "n": 0, "c": [], "u": 0}));
+                } else {
+                    flush_text(&mut text, &mut out, false);
+                    let k = match cs[j] { 'A' => "up", 'B' => "down", 'C' => "right", _ => "left" };
+                    out.push(json!({"k": k, "n": n, "c": [], "u": 0}));
+                }
+                i = j + 1;
+                continue;
+            }
+        }
+        if c == '\n' { flush_text(&mut text, &mut out, true); i += 1; continue; }
+        text.push(c);
+        i += 1;
+    }
+    flush_text(&mut text, &mut out, false);
+    if !out.is_empty() { out.push(json!({"k": "flush", "n": 0, "c": [], "u": 0})); }
+    out
 }
 
 fn pipe_term() -> (console::Term, std::fs::File) {
@@ -86,13 +151,15 @@ impl World {
             "hidden" => ProgressDrawTarget::hidden(),
             "spy_hz" => ProgressDrawTarget::term_like_with_hz(Box::new(self.spy.clone()), hz as u8),
             "pipe" => { let (t, r) = pipe_term(); self.pipe_r = Some(r); ProgressDrawTarget::term(t, if hz == 0 { 20 } else { hz as u8 }) }
+            "pty" => { let (w, h) = { let g = self.spy.0.lock().unwrap(); (g.w, g.h) }; let (t, m) = pty_term(w, h); self.pty_master = Some(m);
+                       ProgressDrawTarget::term(t, if hz == 0 { 255 } else { hz as u8 }) }
             _ => ProgressDrawTarget::term_like(Box::new(self.spy.clone())),
         }
     }
     pub fn new(cfg: &Value) -> World {
         let w = cfg["w"].as_u64().unwrap_or(80) as u16;
         let h = cfg["h"].as_u64().unwrap_or(24) as u16;
-        let mut world = World { spy: Spy::new(w, h), mp: None, bars: BTreeMap::new(), pipe_r: None, weak: BTreeMap::new() };
+        let mut world = World { spy: Spy::new(w, h), mp: None, bars: BTreeMap::new(), pipe_r: None, weak: BTreeMap::new(), pty_master: None };
         if let Some(m) = cfg.get("mp").and_then(|m| m.as_object()) {
             let t = m.get("target").and_then(|x| x.as_str()).unwrap_or("spy").to_string();
             let hz = m.get("hz").and_then(|x| x.as_u64()).unwrap_or(0);
@@ -104,6 +171,16 @@ impl World {
         world
     }
     fn bar(&self, b: i64) -> Option<&ProgressBar> { self.bars.get(&b).and_then(|v| v.first()) }
+    /// calls decoded from what the real Term wrote to the pty since the last call
+    pub fn pty_calls(&mut self) -> Vec<Value> {
+        use std::io::Read;
+        let mut all: Vec<u8> = vec![];
+        if let Some(m) = self.pty_master.as_mut() {
+            let mut buf = [0u8; 65536];
+            loop { match m.read(&mut buf) { Ok(0) => break, Ok(k) => all.extend_from_slice(&buf[..k]), Err(_) => break } }
+        }
+        decode_term_bytes(&all)
+    }
     fn pipe_bytes(&mut self) -> usize {
         use std::io::Read;
         let mut n = 0;
@@ -260,6 +337,7 @@ pub fn run_history(hist: &Value, out: &mut dyn Write) {
     let mphid = mpo.map(|m| m.get("target").and_then(|x| x.as_str()) == Some("hidden") || m.get("target").and_then(|x| x.as_str()) == Some("pipe")).unwrap_or(false);
     let align = mpo.and_then(|m| m.get("align")).and_then(|x| x.as_str()).unwrap_or("top").to_string();
     rec.insert("cfg".into(), json!({"w": cfg["w"].as_u64().unwrap_or(80), "h": cfg["h"].as_u64().unwrap_or(24), "multi": mpo.is_some(), "mphid": mphid, "align": align,
+        "pty": mpo.map(|m| m.get("target").and_then(|x| x.as_str()) == Some("pty")).unwrap_or(false),
         "x": cfg.get("x").cloned().unwrap_or(json!({}))}));
     rec.insert("calls".into(), calls);
     rec.insert("q".into(), json!(q));
@@ -292,7 +370,8 @@ pub fn run_history(hist: &Value, out: &mut dyn Write) {
                 if let Ok(f) = r { frac = if f.is_nan() { -2 } else { (f as f64 * 1073741824.0).floor() as i64 }; }
             }
         }
-        let (calls, q) = world.spy.take();
+        let (mut calls, q) = world.spy.take();
+        if world.pty_master.is_some() { let mut extra = world.pty_calls(); calls.as_array_mut().unwrap().append(&mut extra); }
         let shown: Vec<i64> = calls.as_array().unwrap().iter().rev()
             .filter(|c| c["k"] == "str" && c["u"] == 0)
             .map(|c| c["c"].as_array().unwrap().iter().map(|x| x.as_i64().unwrap()).collect::<Vec<i64>>())
